@@ -24,22 +24,6 @@ MUTANTS = [
                     .unwrap()
                     .seen_transitive_firewall_callees_fingerprint;"""),
     # ------------------------------------------------------------------ storage
-    dict(id="X20-batch-keeps-first-op-on-an-element", file=ST + "write_manager/write_behind.rs",
-         old="                occupied_entry.get_mut().insert(element, op);\n                false",
-         new="                occupied_entry.get_mut().entry(element).or_insert(op);\n                false"),
-    dict(id="X21-key-of-set-after-commit-skipped", file=ST + "write_manager/write_behind.rs",
-         old="        self.wide_column_writes.after_commit(epoch);\n        self.key_of_set_writes.after_commit(epoch);",
-         new="        self.wide_column_writes.after_commit(epoch);"),
-    dict(id="X22-staging-flush-excludes-the-committed-epoch", file=ST + "key_of_set_map/cache.rs",
-         old="                    if peek.epoch <= epoch {", new="                    if peek.epoch < epoch {"),
-    dict(id="X23-staging-unpinned-on-every-flush", file=ST + "key_of_set_map/cache.rs",
-         old="                if unpinned {\n                    self.staging.unpin(key);\n                }",
-         new="                let _ = unpinned;\n                self.staging.unpin(key);"),
-    dict(id="X24-snapshot-under-read-lock-skips-deferred-messages", file=ST + "key_of_set_map/cache.rs",
-         old="        let mut log = self.log.write();\n\n        // fix any deferred messages\n        Self::fix(&mut log, &self.deferred_messages);\n",
-         new="        let log = self.log.read();\n"),
-    dict(id="X25-fetch-entry-ignores-staged-removals", file=ST + "key_of_set_map/cache.rs",
-         old="        for element in &snapshot.removed {\n            new_set.remove_element(element);\n        }\n", new=""),
     dict(id="X26-staging-snapshot-after-cache-lookup", file=ST + "key_of_set_map/cache.rs",
          old="""            let staging_snapshot = self.get_staging_snapshot(key);
             let mut spilled = None;
@@ -55,8 +39,6 @@ MUTANTS = [
 
             let staging_snapshot = self.get_staging_snapshot(key);
 """),
-    dict(id="X27-apply-op-pins-only-new-staging-entries", file=ST + "key_of_set_map/cache.rs",
-         old="                    if updated {\n                        x.dirty.fetch_add(1, Ordering::SeqCst);\n                    }\n", new=""),
     dict(id="X28-too-large-threshold-not-rechecked-after-insert", file=ST + "key_of_set_map/cache.rs",
          old="                if new_set.len() > 1024 {", new="                if new_set.len() > usize::MAX / 2 {"),
 ]
